@@ -1,3 +1,4 @@
+(* NEEDS: Lin/LuQI.vo *)
 (* Extraction of the executable models.  Only ExtrOcamlBasic's directives are in effect
    (bool, option, unit, list, prod, sumbool, sumor -> OCaml types; andb/orb inlined);
    nat, positive, N, Z, Q, Qc stay as the extracted inductive types. *)
@@ -7,7 +8,7 @@ Require Import List ZArith QArith Qcanon.
 Require Import LV.Base.CField LV.Base.QcI LV.Lin.MatL LV.Lin.LuModel LV.Conv.ConvN LV.Lin.LuQI.
 Extraction Language OCaml.
 Set Extraction KeepSingleton.
-Extraction "models.ml"
+Extraction "models_lin.ml"
   QI qre qim qq Qnum Qden this
   q_lu q_mldivide q_mrdivide q_minverse
   q_stozn q_ztosn q_stoyn q_ytosn q_ztoyn q_ytozn q_stozin q_ztozin q_ytozin
